@@ -36,10 +36,16 @@ def _dec_val(kind, v):
         return bool(v)
     if kind == 'i':
         return int(v)
+    if kind == 'o':
+        return None if v is None else str(v)       # a string column that may hold the missing value None (object dtype)
     return str(v)
 
 
 def _col_array(kind, vals):
+    if kind == 'o':
+        a = np.empty(len(vals), dtype=object)
+        a[:] = [_dec_val(kind, v) for v in vals]
+        return a
     dt = {'b': bool, 'i': np.int64, 'f': np.float64, 's': str}[kind]
     a = np.array([_dec_val(kind, v) for v in vals], dtype=dt)
     if kind == 's' and a.dtype.itemsize == 0:
@@ -118,7 +124,16 @@ def frame_diff(g, case, inc_index=True, inc_columns=True, check_kind=True, exact
         for i in range(rows):
             e = _dec_val(kind, vals[i])
             if not same_cell(col[i], e):
+                if isinstance(e, int) and not isinstance(e, bool) and isinstance(col[i], (float, np.floating)) and float(e) == float(col[i]):
+                    # the integer came back as the nearest float64 (it is beyond 2**53): a defect class of its own
+                    return 'int-rounded-to-float64', f'cell [{i},{j}]: got {col[i]!r} expected {e!r}'
                 return 'values', f'cell [{i},{j}]: got {col[i]!r} expected {e!r}'
+        if kind == 'o':
+            # strings with a missing value come back as an object column; without one nothing tells them from a plain string column
+            want = 'O' if any(v is None for v in vals) else 'U'
+            if check_kind and col.dtype.kind != want:
+                return 'kind', f'column {j} kind {col.dtype.kind!r} ({col.dtype}) expected {want!r}'
+            continue
         if check_kind and col.dtype.kind != KIND_OF[kind]:
             return 'kind', f'column {j} kind {col.dtype.kind!r} ({col.dtype}) expected {KIND_OF[kind]!r}'
         if exact_dtype and col.dtype != _col_array(kind, vals).dtype:
@@ -130,6 +145,8 @@ def frame_diff(g, case, inc_index=True, inc_columns=True, check_kind=True, exact
 # classification of cell texts (used for stable failure keys)
 
 def text_class(v, delim):
+    if v is None:
+        return 'missing-none'
     if isinstance(v, bool):
         return 'plain'
     if isinstance(v, int):
@@ -177,7 +194,7 @@ def pos_class(case, pos):
     return base if at_edge else base.replace('edge-space', 'interior-edge-space').replace('blank-string', 'interior-blank-string')
 
 
-PLAIN = {'b': True, 'i': 3, 'f': '1.5', 's': 'a'}
+PLAIN = {'b': True, 'i': 3, 'f': '1.5', 's': 'a', 'o': 'a'}
 
 
 def _specials(case):
@@ -467,7 +484,7 @@ def label_specials(d):
 
 POOLS = {
     'b': [[True, False, True], [False, False, True], [True, True, False]],
-    'i': [[0, -7, 10 ** 15], [-1, 2 ** 62, 5], [123456789, 0, -2 ** 40]],
+    'i': [[0, -7, 2 ** 53 + 1], [-1, 2 ** 62 + 1, 5], [123456789, 0, -2 ** 40]],     # (integers a float64 cannot hold)
     'f': [['1.5', 'nan', '-1e+300'], ['nan', '3.0', '0.1'], ['-2.25', '1e-300', 'nan'], ['inf', '-inf', '2.5'], ['123456789012345.6', '-0.0', '1e+22']],
     's': [['a', 'b c', 'de'], ['x"y', 'a', ''], ['', 'p', 'q r'], [' a', 'zz', 'a '], ['k', 'a,b;c', 'w\tv']],
 }
@@ -561,6 +578,19 @@ def cases_delimited(tier):
                                     if quick and (iv + cv) % 2 and cfg is not CONFIGS[0] and cfg is not CONFIGS[4]:
                                         continue
                                     yield dict(area='delim', phase='C', delim=d, via=via, cols=cols, index=ixl, columns=cl, **cfg)
+    # phase E: a missing value (None) at every cell of string columns; all-string files and files with a typed column next to them
+    for d, via in delims:
+        for shape_kinds in (['o'], ['o', 's'], ['s', 'o'], ['o', 'o'], ['o', 'i'], ['f', 'o']):
+            for rows in (2, 3):
+                for j, k in enumerate(shape_kinds):
+                    if k != 'o':
+                        continue
+                    for i in range(rows):
+                        cols = [[kk, list(POOLS[kk][0][:rows])] if kk not in 'so' else [kk, ['a', 'bc', 'd'][:rows]] for kk in shape_kinds]
+                        cols[j][1][i] = None
+                        for cfg in (CONFIGS[0], CONFIGS[3], CONFIGS[4], CONFIGS[5]):
+                            for ixl in ([_lev('s', rows, 'r')], [_lev('i', rows, 'r')]):
+                                yield dict(area='delim', phase='E', delim=d, via=via, cols=cols, index=ixl, columns=[_lev('s', len(cols), 'c')], **cfg)
     # phase D: special labels at every label position and level
     for d, via in delims:
         for idepth in (1, 2, 3):
